@@ -15,14 +15,52 @@ const id = M.id
 
 const SENT = { __sentinel: true }
 
+/** an object in which every step of the chain alphabet is valid, `depth` levels deep; leaves are distinct strings */
+function tree(depth, label) {
+  if (depth === 0) return label
+  const o = {}
+  for (const key of ['b', '0', 'x', 'y', 'c', 'w', 'e']) o[key] = tree(depth - 1, label + '.' + key)
+  return o
+}
+const item = (n) => Object.assign(tree(2, 'i' + n), { v: 'v' + n, h: 'h' + n, o: { p: 'p' + n } })
 const DATA = [
-  { a: { b: { c: 'abc', w: 'abw' }, 0: 'a0', x: 'ax', y: { c: 'ayc' } }, k: 'b', b: { c: 'x' }, d: { e: 'de' }, c: 1, z: 'Z', list: [{ v: 'v0', h: 'h0', o: { p: 'p0' } }, { v: 'v1', h: 'h1', o: { p: 'p1' } }], outer: [{ inner: [{ w: 'w00' }, { w: 'w01' }] }, { inner: [{ w: 'w10' }] }], f: function f() { return [{ v: 'fv' }] } },
-  { a: { b: { c: 'abc2' }, 0: 'a0', x: 'ax2', y: { c: 'ayc' } }, k: 'y', b: { c: 'b' }, d: { e: 'de2' }, c: 0, z: 'Z2', list: [{ v: 'only', h: 'hh', o: { p: 'pp' } }], outer: [{ inner: [] }, { inner: [{ w: 'w10' }, { w: 'w11' }] }], f: function f() { return [] } },
+  { a: tree(3, 'a'), k: 'b', b: { c: 'x' }, d: tree(3, 'd'), c: 1, z: 'Z', list: [item(0), item(1)], outer: [{ inner: [{ w: 'w00' }, { w: 'w01' }] }, { inner: [{ w: 'w10' }] }], f: function f() { return [{ v: 'fv' }] } },
+  { a: tree(3, 'A'), k: 'y', b: { c: 'b' }, d: tree(3, 'D'), c: 0, z: 'Z2', list: [item(7)], outer: [{ inner: [] }, { inner: [{ w: 'w10' }, { w: 'w11' }] }], f: function f() { return [] } },
 ]
 const MISSING = { c: 0, k: 'b', list: [], outer: [] } // everything else undefined
 
 /** expressions at top level: [name, expr, assignable: 'data' | 'script' | false] */
-function topExprs() {
+const STEPS = [
+  ['.b', (e) => M.mem(e, 'b')],
+  ['[0]', (e) => M.idx(e, M.lit('0'))],
+  ["['x']", (e) => M.idx(e, M.lit("'x'"))],
+  ['[k]', (e) => M.idx(e, id('k'))],
+  ['[b.c]', (e) => M.idx(e, M.mem(id('b'), 'c'))],
+]
+/** every access chain of 1..maxLen steps from `root` */
+function chains(rootName, maxLen) {
+  const out = []
+  const rec = (name, e, len) => {
+    if (len > 0) out.push([name, e, 'data'])
+    if (len === maxLen) return
+    for (const [sn, sf] of STEPS) rec(name + sn, sf(e), len + 1)
+  }
+  rec(rootName, id(rootName), 0)
+  return out
+}
+
+function topExprs(thorough) {
+  return [...topExprsFixed(), ...chains('a', thorough ? 3 : 2).map(([n, e, k]) => ['chain:' + n, e, k]),
+    // a chain inside the taken and the untaken branch of a conditional, and as the operand of a non-assignable form
+    ...chains('a', thorough ? 2 : 1).flatMap(([n, e]) => [
+      [`c ? ${n} : d.e`, M.cond(id('c'), e, M.mem(id('d'), 'e')), 'data'],
+      [`c ? d.e : ${n}`, M.cond(id('c'), M.mem(id('d'), 'e'), e), 'data'],
+      [`${n} + 1`, M.bin('+', e, M.lit('1')), false],
+      [`!${n}`, M.un('!', e), false],
+      [`f(${n})`, M.call(id('f'), [e]), false],
+    ])]
+}
+function topExprsFixed() {
   const a = id('a'); const k = id('k'); const b = id('b'); const d = id('d'); const c = id('c'); const z = id('z')
   return [
     ['a', a, 'data'],
@@ -59,9 +97,10 @@ function topExprs() {
     ['m', id('m'), 'script-or-none'],
   ]
 }
-function itemExprs() {
+function itemExprs(thorough) {
   const item = id('item'); const k = id('k')
   return [
+    ...chains('item', thorough ? 2 : 1).map(([n, e, kk]) => ['chain:' + n, e, kk]),
     ['item', item, 'data'],
     ['item.v', M.mem(item, 'v'), 'data'],
     ['item.o.p', M.mem(M.mem(item, 'o'), 'p'), 'data'],
@@ -100,16 +139,16 @@ const LISTS = [
   ['for-nested', (b) => [el('o', [], [el('f', [], b, { wxFor: { list: E(M.mem(id('it'), 'inner')) } })], { wxFor: { list: E(id('outer')), item: 'it', index: 'oi' } })], true],
 ]
 
-function cases() {
+function cases(thorough) {
   const out = []
   for (const [pn, pf, find, mode] of POSITIONS) {
-    for (const [en, e, kind] of topExprs()) out.push({ name: `${pn}|${en}`, main: [MOD, GLOB, pf(e)], find, mode, kind, expr: e, inFor: null })
-    for (const [ln, lf, listIsPath] of LISTS) for (const [en, e, kind] of itemExprs()) {
+    for (const [en, e, kind] of topExprs(thorough)) out.push({ name: `${pn}|${en}`, main: [MOD, GLOB, pf(e)], find, mode, kind, expr: e, inFor: null })
+    for (const [ln, lf, listIsPath] of LISTS) for (const [en, e, kind] of itemExprs(thorough)) {
       out.push({ name: `${pn}|${ln}|${en}`, main: [MOD, GLOB, ...lf([pf(e)])], find, mode, kind, expr: e, inFor: ln, listIsPath })
     }
   }
   // the list path handed to the for-loop itself
-  for (const [en, e, kind] of topExprs()) out.push({ name: `wx:for-list|${en}`, main: [MOD, GLOB, el('f', [], [text(E(id('item')))], { wxFor: { list: E(e) } })], mode: 'for-list', kind, expr: e })
+  for (const [en, e, kind] of topExprs(thorough)) out.push({ name: `wx:for-list|${en}`, main: [MOD, GLOB, el('f', [], [text(E(id('item')))], { wxFor: { list: E(e) } })], mode: 'for-list', kind, expr: e })
   return out
 }
 
@@ -257,7 +296,7 @@ function checkCase(cs, Gs, data, rep, src, envName) {
 
 function runShard(info, thorough) {
   const rep = new C.Report()
-  const all = cases()
+  const all = cases(thorough)
   const mine = all.filter((_, i) => i % info.of === info.shard)
   const jobs = mine.map((cs, i) => ({ id: i, files: [['m', T.print(cs.main).text]], scripts: Object.keys(SCRIPTS).map((p) => [p, SCRIPTS[p]]), want: ['groups'] }))
   const res = C.compileBatch(jobs, 1)
@@ -279,7 +318,7 @@ function runShard(info, thorough) {
 }
 
 function replayOne(rec) {
-  const cs = cases().find((c) => c.name === rec.case)
+  const cs = cases(true).find((c) => c.name === rec.case)
   if (!cs) return { deterministic: true, failure: null, note: 'case no longer exists' }
   const src = T.print(cs.main).text
   const r = C.compileBatch([{ id: 0, files: [['m', src]], scripts: Object.keys(SCRIPTS).map((p) => [p, SCRIPTS[p]]), want: ['groups'] }], 1)[0]
@@ -303,8 +342,8 @@ async function main() {
   }
   const rep = await C.runSharded(__filename, ['--tier', thorough ? 'thorough' : 'quick'])
   const res = rep.toResult('C11',
-    '32 expressions at top level (member chains, static / dynamic / nested indices, parenthesised chains, conditionals with path, non-path and mixed branches, arithmetic, literals, unary, comparison, logical, calls, members of calls and of literals, inline and external script members, conditionals over script and data references) and 7 item expressions under 7 list forms (data path, keyed, member path, literal list, call list, conditional path, nested loops), each in 6 positions (model:, bind:, capture-catch:, change:, legacy bind*, plain attribute), plus every top-level expression as the wx:for list; under two data environments with every key present and one with everything missing. non-trivial = assignable expressions; distinct = case name',
-    { cases: cases().length, environments: 3 },
+    'every access chain of up to 2 (quick) / 3 (thorough) steps over {.b, [0], [\'x\'], [k], [b.c]} from a data root (and of 1 / 2 steps from a loop item), each also inside both branches of a conditional and under non-assignable forms, plus 32 hand-listed expressions at top level (member chains, static / dynamic / nested indices, parenthesised chains, conditionals with path, non-path and mixed branches, arithmetic, literals, unary, comparison, logical, calls, members of calls and of literals, inline and external script members, conditionals over script and data references) and 7 item expressions under 7 list forms (data path, keyed, member path, literal list, call list, conditional path, nested loops), each in 6 positions (model:, bind:, capture-catch:, change:, legacy bind*, plain attribute), plus every top-level expression as the wx:for list; under two data environments with every key present and one with everything missing. non-trivial = assignable expressions; distinct = case name',
+    { cases: cases(thorough).length, environments: 3, chain_length: thorough ? 3 : 2 },
     true,
     ['V8 and the recording runtime (path arguments of R.r / R.v / R.p / F and the item paths handed to loop bodies)', 'get-put is evaluated on the emitted path itself; whether an expression is a pure access chain is a syntactic property of the model tree'],
     {})
